@@ -43,15 +43,18 @@ type Config struct {
 	Perm     time.Duration // 0 = default (5 min)
 	Chan     time.Duration // 0 = default (10 min)
 	Policy   string        // "allow" (default) | "denyB" | "denyAll"
-	Stream   bool          // clients connect over the stream listener
-	MTU      int
-	Strict   bool
-	SlowCB   time.Duration // lifecycle callbacks sleep this long (virtual)
-	V6       bool          // server listens on an IPv6 address
-	NoAuth   bool          // no AuthHandler configured (STUN-only server)
-	Wild     bool          // the stream listener is bound to the unspecified address (0.0.0.0:3478), as in production
-	Dual     bool          // a UDP socket AND a stream listener on the same ip:port, one relay address generator; clients named *t use the stream
-	Name     string
+	// StreamPolicy: in a Dual world the permission handler of the stream listener ("" = the same as Policy):
+	// every listener of a server has its own handler
+	StreamPolicy string
+	Stream       bool // clients connect over the stream listener
+	MTU          int
+	Strict       bool
+	SlowCB       time.Duration // lifecycle callbacks sleep this long (virtual)
+	V6           bool          // server listens on an IPv6 address
+	NoAuth       bool          // no AuthHandler configured (STUN-only server)
+	Wild         bool          // the stream listener is bound to the unspecified address (0.0.0.0:3478), as in production
+	Dual         bool          // a UDP socket AND a stream listener on the same ip:port, one relay address generator; clients named *t use the stream
+	Name         string
 }
 
 func (c Config) String() string {
@@ -62,6 +65,9 @@ func (c Config) String() string {
 	}
 	if c.Dual {
 		s += " udp+stream-listeners"
+		if c.StreamPolicy != "" {
+			s += " stream-listener-policy=" + c.StreamPolicy
+		}
 	}
 
 	return s
@@ -322,17 +328,29 @@ func NewWorld(cfg Config, clients, peers []string) (*World, error) {
 	if cfg.NoAuth {
 		sc.AuthHandler = nil
 	}
-	var ph turn.PermissionHandler
-	switch cfg.Policy {
-	case "", "allow":
-	case "denyB":
-		ph = func(_ net.Addr, ip net.IP) bool { return !ip.Equal(PeerSpec["B"].IP) }
-	case "denyBlate":
-		ph = func(_ net.Addr, ip net.IP) bool { return !ip.Equal(PeerSpec["B"].IP) || time.Since(Epoch) < PolicyFlip }
-	case "denyAll":
-		ph = func(net.Addr, net.IP) bool { return false }
-	default:
-		return nil, fmt.Errorf("unknown policy %q", cfg.Policy)
+	handlerOf := func(policy string) (turn.PermissionHandler, error) {
+		switch policy {
+		case "", "allow":
+			return nil, nil
+		case "denyB":
+			return func(_ net.Addr, ip net.IP) bool { return !ip.Equal(PeerSpec["B"].IP) }, nil
+		case "denyBlate":
+			return func(_ net.Addr, ip net.IP) bool { return !ip.Equal(PeerSpec["B"].IP) || time.Since(Epoch) < PolicyFlip }, nil
+		case "denyAll":
+			return func(net.Addr, net.IP) bool { return false }, nil
+		}
+
+		return nil, fmt.Errorf("unknown policy %q", policy)
+	}
+	ph, err := handlerOf(cfg.Policy)
+	if err != nil {
+		return nil, err
+	}
+	phStream := ph
+	if cfg.Dual && cfg.StreamPolicy != "" {
+		if phStream, err = handlerOf(cfg.StreamPolicy); err != nil {
+			return nil, err
+		}
 	}
 	if cfg.Stream || cfg.Dual {
 		lip := w.SrvAddr.IP
@@ -347,7 +365,7 @@ func NewWorld(cfg Config, clients, peers []string) (*World, error) {
 			return nil, err
 		}
 		w.Lst = l
-		sc.ListenerConfigs = []turn.ListenerConfig{{Listener: l, RelayAddressGenerator: relayGen{w}, PermissionHandler: ph}}
+		sc.ListenerConfigs = []turn.ListenerConfig{{Listener: l, RelayAddressGenerator: relayGen{w}, PermissionHandler: phStream}}
 	}
 	if !cfg.Stream || cfg.Dual {
 		s, err := w.Net.ListenUDP("udp", w.SrvAddr)
